@@ -325,8 +325,12 @@ func (c *ColLowCardinality[T]) Prepare() error {
 	c.keys = append(c.keys[:0], make([]int, len(c.Values))...)
 	if c.kv == nil {
 		c.kv = map[T]int{}
-		c.index.Reset()
 	}
+	// Keys are assigned from zero below, so the dictionary is rebuilt from
+	// Values: entries kept from a previous Prepare or DecodeColumn would
+	// not match them.
+	clear(c.kv)
+	c.index.Reset()
 
 	// Fill keys with value indexes.
 	var last int
